@@ -142,6 +142,141 @@ theorem keyed_mirrors_history {K C : Type} [DecidableEq C] (idx : K → Nat) (ct
   obtain ⟨hts, p, hp, rest⟩ := hmain
   exact ⟨hts, recsOf_eq_ghost ctx (ctx k0) h Ghost.init, p, hp, rest⟩
 
+/-! ## §1b the driver's oracle computes the specification state -/
+
+structure OInv {K C : Type} [DecidableEq C] (ctx : K → C) (o : Oracle C) (h : List (KOp K)) : Prop where
+  ent : ∀ e ∈ o.entries, e.2 = Ghost.init.run (h.map (KOp.ctxProject ctx e.1))
+  fr : o.fresh = Ghost.init.run (h.map KOp.globalLOp)
+  unseen : ∀ c, o.has c = false → h.map (KOp.ctxProject ctx c) = h.map KOp.globalLOp
+
+theorem Ghost.run_snoc (g : Ghost) (l : List LOp) (x : LOp) : g.run (l ++ [x]) = (g.run l).step x := by
+  simp [Ghost.run, List.foldl_append]
+
+theorem ctxProject_unkeyed {K C : Type} [DecidableEq C] (ctx : K → C) (c : C) (op : KOp K)
+    (h : ∀ k, op.key? = some k → ctx k ≠ c) : op.ctxProject ctx c = op.globalLOp := by
+  cases op with
+  | record k s1 r => have := h k rfl; simp [KOp.ctxProject, KOp.globalLOp, this]
+  | syncAll => rfl
+  | sync k => have := h k rfl; simp [KOp.ctxProject, KOp.globalLOp, this]
+  | syncAt j k => have := h k rfl; simp [KOp.ctxProject, KOp.globalLOp, this]
+  | reset => rfl
+  | ctor b => rfl
+
+/-- the entry list after the (possible) insertion of the call's context -/
+def Oracle.ext {K C : Type} [DecidableEq C] (ctx : K → C) (o : Oracle C) (op : KOp K) : List (C × Ghost) :=
+  match op.key? with
+  | some k => if o.has (ctx k) then o.entries else o.entries ++ [(ctx k, o.fresh)]
+  | none => o.entries
+
+theorem Oracle.step_eq {K C : Type} [DecidableEq C] (ctx : K → C) (o : Oracle C) (op : KOp K) :
+    o.step ctx op = { entries := (o.ext ctx op).map (fun e => (e.1, e.2.step (op.ctxProject ctx e.1))),
+                      fresh := o.fresh.step op.globalLOp } := rfl
+
+theorem OInv.step {K C : Type} [DecidableEq C] (ctx : K → C) (o : Oracle C) (h : List (KOp K)) (op : KOp K)
+    (hi : OInv ctx o h) : OInv ctx (o.step ctx op) (h ++ [op]) := by
+  have hes : ∀ e ∈ o.ext ctx op, e.2 = Ghost.init.run (h.map (KOp.ctxProject ctx e.1)) := by
+    intro e he
+    unfold Oracle.ext at he
+    cases hk : op.key? with
+    | none => simp only [hk] at he; exact hi.ent e he
+    | some k =>
+      simp only [hk] at he
+      by_cases hh : o.has (ctx k) = true
+      · simp only [hh, if_true] at he; exact hi.ent e he
+      · simp only [hh] at he
+        rcases List.mem_append.mp he with h1 | h1
+        · exact hi.ent e h1
+        · simp only [List.mem_singleton] at h1
+          subst h1
+          simp only
+          rw [hi.unseen (ctx k) (by simpa using hh), hi.fr]
+  have hsub : ∀ e ∈ o.entries, e ∈ o.ext ctx op := by
+    intro e he
+    unfold Oracle.ext
+    cases hk : op.key? with
+    | none => exact he
+    | some k =>
+      simp only
+      split
+      · exact he
+      · exact List.mem_append_left _ he
+  have hkey : ∀ k, op.key? = some k → ∃ e ∈ o.ext ctx op, e.1 = ctx k := by
+    intro k hk
+    unfold Oracle.ext
+    simp only [hk]
+    by_cases hh : o.has (ctx k) = true
+    · simp only [hh, if_true]
+      obtain ⟨e, he, hd⟩ := List.any_eq_true.mp hh
+      exact ⟨e, he, by simpa using hd⟩
+    · simp only [hh]
+      exact ⟨(ctx k, o.fresh), by simp, rfl⟩
+  rw [Oracle.step_eq]
+  refine ⟨?_, ?_, ?_⟩
+  · intro e' he'
+    obtain ⟨e, he, rfl⟩ := List.mem_map.mp he'
+    simp only [List.map_append, List.map_cons, List.map_nil, Ghost.run_snoc]
+    rw [← hes e he]
+  · simp only [List.map_append, List.map_cons, List.map_nil, Ghost.run_snoc, hi.fr]
+  · intro c hc
+    have hno : ∀ e ∈ o.ext ctx op, e.1 ≠ c := by
+      intro e he heq
+      have : Oracle.has { entries := (o.ext ctx op).map (fun e => (e.1, e.2.step (op.ctxProject ctx e.1))),
+                          fresh := o.fresh.step op.globalLOp } c = true := by
+        simp only [Oracle.has, List.any_eq_true]
+        exact ⟨(e.1, e.2.step (op.ctxProject ctx e.1)), List.mem_map.mpr ⟨e, he, rfl⟩, by simpa using heq⟩
+      rw [this] at hc; cases hc
+    have hold : o.has c = false := by
+      cases hb : o.has c with
+      | false => rfl
+      | true =>
+        obtain ⟨e, he, hd⟩ := List.any_eq_true.mp hb
+        exact absurd (by simpa using hd) (hno e (hsub e he))
+    simp only [List.map_append, List.map_cons, List.map_nil]
+    rw [hi.unseen c hold, ctxProject_unkeyed ctx c op (fun k hk heq => by
+      obtain ⟨e, he, h1⟩ := hkey k hk
+      exact hno e he (h1.trans heq))]
+
+theorem OInv.run {K C : Type} [DecidableEq C] (ctx : K → C) (h : List (KOp K)) : ∀ (o : Oracle C) (h0 : List (KOp K)),
+    OInv ctx o h0 → OInv ctx (o.run ctx h) (h0 ++ h) := by
+  induction h with
+  | nil => intro o h0 hi; simpa [Oracle.run] using hi
+  | cons op t ih =>
+    intro o h0 hi
+    have := ih (o.step ctx op) (h0 ++ [op]) (hi.step ctx o h0 op)
+    simpa [Oracle.run, List.append_assoc] using this
+
+/-- **oracle_sound** — the specification state the driver keeps per context (updated call by call, contexts inserted when first
+    used) IS the ghost state of the context projection of the whole history, for every context, used or not: the `fail` clauses of
+    the `coophist` / `fbhist` lines are evaluated on exactly the data `keyed_mirrors_history` speaks about. -/
+theorem oracle_sound {K C : Type} [DecidableEq C] (ctx : K → C) (h : List (KOp K)) (c : C) :
+    ((Oracle.init : Oracle C).run ctx h).ghostOf c = Ghost.init.run (h.map (KOp.ctxProject ctx c)) := by
+  have hi : OInv ctx (Oracle.init : Oracle C) [] :=
+    ⟨by intro e he; simp [Oracle.init] at he, rfl, by intro c _; rfl⟩
+  have hr := OInv.run ctx h Oracle.init [] hi
+  simp only [List.nil_append] at hr
+  unfold Oracle.ghostOf
+  cases hf : ((Oracle.init : Oracle C).run ctx h).entries.find? (fun e => decide (e.1 = c)) with
+  | some e =>
+    have hm := List.mem_of_find?_eq_some hf
+    have hp := List.find?_some hf
+    have : e.1 = c := by simpa using hp
+    simp only
+    rw [hr.ent e hm, this]
+  | none =>
+    have hn : ((Oracle.init : Oracle C).run ctx h).has c = false := by
+      unfold Oracle.has
+      rw [Bool.eq_false_iff]
+      intro ha
+      obtain ⟨e, he, hd⟩ := List.any_eq_true.mp ha
+      have := List.find?_eq_none.mp hf e he
+      exact this hd
+    simp only
+    rw [hr.fr, hr.unseen c hn]
+
+/-- test: three calls on two contexts (keys = contexts = naturals) -/
+example : (((Oracle.init : Oracle Nat).run (fun (k : Nat) => k) [.record 1 0 2, .syncAll, .record 2 0 5]).ghostOf 1
+    == ⟨[(0, 2)], [(0, 2)], 0⟩) = true := by decide
+
 /-! ## §2 `DDNGraph::getId` separates exactly the contexts -/
 
 theorem toIndexPartial_eq_toIndex (keys sp f : List Nat) : toIndexPartial keys sp f = toIndex (sel keys sp) (sel keys f) := by
